@@ -2,14 +2,17 @@
   C10 — Backend responses are relayed faithfully; broken ones never look complete.
   Property theorems only; helper lemmas live in LtVerif/Proofs/BackendResp.lean.
 
-  The models describe the code with the C10 repairs applied (seeded/C10-fixes; the reverse patches
-  are seeds C10-D*): the CR check of the backend chunked decoder, the CR left in merged trailer
-  values, `gw_dechunk->done = 0` for a response without Status, the missing keep-alive reset for
-  a truncated Content-Length body, an invalid Content-Length relayed verbatim, a partial body
-  presented under a computed Content-Length while the client-side head is still unsent (now 502),
-  and END_STREAM instead of RST_STREAM on HTTP/2 after a backend failure.
+  The models describe the code with the C10 repairs applied (seeded/C10-fixes 0001–0012 = D53–D60,
+  D62, D69–D72 in /repo; the reverse patches are the seeds C10-D*).
+  Proved here: per-layer automaton facts (decoder, FastCGI reassembly), storage/relay of fields
+  for the one-read Content-Length case, and what lighttpd DOES when the backend stream breaks
+  (own 500/502, or abort + close / RST_STREAM), over all runs of the relay (reachability
+  invariant `Inv`).  NOT proved (correspondence only): that every split of a whole response
+  gives the client the same message (only per layer), CGI/NPH status mapping, 1xx, trailers,
+  re-chunking, and that an abort is visible to the client (false for HTTP/1.0, witness below).
 -/
 import LtVerif.Proofs.BackendResp
+import LtVerif.Proofs.HttpChunkEnc
 namespace LtVerif.C10
 open LtVerif B LtVerif.BeResp
 
@@ -43,6 +46,61 @@ theorem c10_dechunk_roundtrip (cs : List (Bytes × Bytes)) (last t : Bytes)
     have : dwire (c :: rest) last t = (c.1 ++ c.2 ++ [cr, lf]) ++ dwire rest last t := by simp [dwire]
     rw [this, dcFeed_append, dcFeed_chunk hc.1 hc.2, ih hrest]
     simp
+
+/-- **The accepted chunk-size lines include what an encoder writes, with the value it means.**
+    The hexadecimal rendering of any size below 2^62 (`encHex`, the reference encoder of
+    Model/H1Chunked.lean, independent of the decoder), optionally followed by a chunk extension
+    (`;` ...), then CRLF, is a `DcGoodLine` for exactly that size: the value the decoder computes
+    is tied to an independent rendering, not just to its own scanner. -/
+theorem c10_dechunk_size_line_rendered (n : Nat) (ext : Bytes) (hn : chunkSizeOk n)
+    (hext : ext = [] ∨ ext.head? = some 59) (hlf : lf ∉ ext) (hlen : ext.length ≤ 900) :
+    DcGoodLine (encHex n ++ ext ++ [cr, lf]) n := by
+  have hlt : n < 16 ^ 64 := by
+    unfold chunkSizeOk at hn
+    calc n < 2 ^ 62 := hn
+      _ ≤ 16 ^ 64 := by decide
+  obtain ⟨ds, h1, h2, h3, h4, h5⟩ := hexDigits_spec 64 n (by decide) hlt
+  have hl : (renderHex ds).length = ds.length := by simp [renderHex]
+  have hpos : 0 < ds.length := List.length_pos_iff.mpr h4
+  have hrest : (ext ++ [cr, lf]).head?.bind hexVal = none := by
+    rcases hext with h | h
+    · subst h; decide
+    · cases ext with
+      | nil => simp at h
+      | cons b r =>
+        simp at h; subst h
+        simp only [List.cons_append, List.head?_cons, Option.bind_some]
+        decide
+  have hck := ckHex_render (ext ++ [cr, lf]) hrest ds 0 0 h2 (by rw [h3]; exact chunkSizeOk_div hn)
+  unfold encHex
+  rw [h1]
+  refine ⟨?_, ⟨renderHex ds ++ ext ++ [cr], by simp, ?_⟩, by simp [hl]; omega⟩
+  · unfold dcParseLine
+    rw [List.append_assoc, hck, h3]
+    have hget : (renderHex ds ++ (ext ++ [cr, lf])).getD ((renderHex ds ++ (ext ++ [cr, lf])).length - 2) 0 = cr := by
+      have e : (renderHex ds ++ (ext ++ [cr, lf])) = (renderHex ds ++ ext) ++ [cr, lf] := by simp
+      rw [e, List.getD_eq_getElem?_getD]
+      have e2 : ((renderHex ds ++ ext) ++ [cr, lf]).length - 2 = (renderHex ds ++ ext).length := by simp; omega
+      rw [e2, List.getElem?_append_right (Nat.le_refl _)]
+      simp
+    have h0 : ¬ (0 + ds.length = 0) := by omega
+    simp only [h0, if_false, hget, ne_eq, not_true_eq_false]
+    have hdrop : (renderHex ds ++ (ext ++ [cr, lf])).drop (0 + ds.length) = ext ++ [cr, lf] := by
+      rw [Nat.zero_add, ← hl]; simp
+    rw [hdrop]
+    rcases hext with h | h
+    · subst h; simp [cr, sp, ht]
+    · cases ext with
+      | nil => simp at h
+      | cons b r => simp at h; subst h; simp [sp, ht]
+  · intro hmem
+    rcases List.mem_append.mp hmem with h | h
+    · rcases List.mem_append.mp h with h | h
+      · simp only [renderHex, List.mem_map] at h
+        obtain ⟨d, hdm, he⟩ := h
+        exact (hexDigit_facts d (h2 d hdm)).2.2.1 he
+      · exact hlf h
+    · simp [cr, lf] at h
 
 /-- decoded output only ever grows: what has been handed on is never taken back or altered -/
 theorem c10_dechunk_output_monotone (bs : Bytes) : ∀ (s : DcSt), ∃ x, (dcFeed s bs).out = s.out ++ x := by
@@ -119,15 +177,6 @@ theorem c10_dechunk_bad_size_line_rejected (p out : Bytes) (hlf : lf ∉ p) (hle
     (dcFeed { mode := .hdr [], out := out } (p ++ [lf])).mode = .err := by
   rw [dcFeed_append, dcFeed_hdr_pre p [] out hlf (by simpa using hlen)]
   simp [dcFeed_cons, dcFeed_nil, dcStep, hbad]
-
-/-- what the validator rejects: no hex digit at the start of the line -/
-theorem c10_dechunk_line_needs_hex (l : Bytes) (h : (l.head?.bind hexVal) = none) : dcParseLine l = none := by
-  unfold dcParseLine
-  cases l with
-  | nil => simp [ckHex]
-  | cons b rest =>
-    simp only [List.head?_cons, Option.bind_some] at h
-    simp [ckHex, h]
 
 /-- the chunk-size overflow guard of the model is the one of the C (1 << (8*sizeof(off_t)-5)) -/
 theorem c10_dechunk_guard_is_extracted : ckSizeLimit = 2 ^ Extracted.dechunkGuardShift - 1 - 2 := by decide
@@ -307,61 +356,51 @@ theorem c10_fields_relayed (cfg : Cfg) (st : St) (fs : List (Bytes × Bytes))
   rw [foldl_applyLine_plain cfg fs st hp,
       foldl_hdrInsert_fresh _ fs st.headers (fun f hf => (hp f hf).vne) hnd]
 
-/-- **Hop-by-hop fields of the backend connection are not relayed**: Upgrade (upgrade not
-    enabled) and HTTP2-Settings from any backend, Connection from a proxy backend or towards an
-    HTTP/2 client never reach the client-side field list; Transfer-Encoding is consumed (it turns
-    on the chunked decoder and removes a Content-Length received before it). -/
-theorem c10_hop_by_hop_not_relayed (cfg : Cfg) (st : St) (k v : Bytes) :
-    (lower k = nUpgrade → applyField cfg st k v = st) ∧
-    (lower k = nHttp2Settings → applyField cfg st k v = st) ∧
-    (lower k = nConnection → (cfg.be = .proxy ∨ cfg.ver ≥ 2) → applyField cfg st k v = st) ∧
-    (lower k = nTransferEncoding → (applyField cfg st k v).decodeChunked = true ∧
-       (applyField cfg st k v).headers =
-         (if hasHdr st.headers nContentLength then hdrUnset st.headers nContentLength else st.headers) ∧
-       (applyField cfg st k v).scratch = (if hasHdr st.headers nContentLength then -1 else st.scratch)) := by
-  refine ⟨?_, ?_, ?_, ?_⟩
-  · intro h
-    have : ¬ (nUpgrade = nStatus) := by decide
-    simp [applyField, h, this]
-  · intro h
-    have h1 : ¬ (nHttp2Settings = nStatus) := by decide
-    have h2 : ¬ (nHttp2Settings = nUpgrade) := by decide
-    have h3 : ¬ (nHttp2Settings = nConnection) := by decide
-    have h4 : ¬ (nHttp2Settings = nContentType) := by decide
-    have h5 : ¬ (nHttp2Settings = nContentLength) := by decide
-    have h6 : ¬ (nHttp2Settings = nTransferEncoding) := by decide
-    simp [applyField, h, h1, h2, h3, h4, h5, h6]
-  · intro h hc
-    have h1 : ¬ (nConnection = nStatus) := by decide
-    have h2 : ¬ (nConnection = nUpgrade) := by decide
-    rcases hc with hc | hc
-    · simp [applyField, h, h1, h2, hc]
-    · by_cases hp : cfg.be = .proxy
-      · simp [applyField, h, h1, h2, hp]
-      · simp [applyField, h, h1, h2, hp, hc]
-  · intro h
-    have h1 : ¬ (nTransferEncoding = nStatus) := by decide
-    have h2 : ¬ (nTransferEncoding = nUpgrade) := by decide
-    have h3 : ¬ (nTransferEncoding = nConnection) := by decide
-    have h4 : ¬ (nTransferEncoding = nContentType) := by decide
-    have h5 : ¬ (nTransferEncoding = nContentLength) := by decide
-    unfold applyField
-    simp only [h, h1, h2, h3, h4, h5, if_false, if_true]
-    by_cases hcl : hasHdr st.headers nContentLength = true <;> simp [hcl]
+/-- lighttpd answered with its own complete error response of that status (HTTP/1.x): status
+    line, fields, empty line, the error page (nothing for HEAD), keep-alive as negotiated; for a
+    request other than HEAD the fields are exactly Content-Type, the Content-Length of the page,
+    Connection / Date (`errFields`) -/
+def OwnError (cfg : Cfg) (st st' : St) (status : Nat) : Prop :=
+  st'.status = status ∧ st'.cstate = .done ∧ st'.keepAlive = st.keepAlive ∧
+  (∃ fields, st'.evs = pushW st.evs
+      (h1StatusLine cfg status ++ fields ++ crlf ++ crlf ++ (if cfg.head then [] else errorPage status))) ∧
+  (cfg.head = false → st'.evs = pushW st.evs
+      (h1StatusLine cfg status ++ errFields cfg status st.keepAlive ++ crlf ++ crlf ++ errorPage status))
 
+theorem ownError_conStep (cfg : Cfg) (st st1 : St) (status : Nat) (hv : cfg.ver ≤ 1) (hc : st1.cstate = .handle)
+    (ho : st1.open_ = false) (hh : st1.handler = false) (hs : st1.status = status)
+    (h5 : status = 500 ∨ status = 502) (hk : st1.keepAlive = st.keepAlive) (he : st1.evs = st.evs) :
+    OwnError cfg st (conStep cfg st1) status := by
+  have h4 : 400 ≤ st1.status := by rcases h5 with h | h <;> omega
+  have h6 : st1.status < 600 := by rcases h5 with h | h <;> omega
+  have h401 : st1.status ≠ 401 := by rcases h5 with h | h <;> omega
+  obtain ⟨c1, c2, c3, ⟨f, c4⟩⟩ := conStep_errdoc cfg st1 hv hc ho hh h4 h6
+  refine ⟨by rw [c1, hs], c2, by rw [c3, hk], ⟨f, by rw [c4, hs, he]⟩, fun hhead => ?_⟩
+  rw [conStep_errdoc_fields cfg st1 hv hc ho hh h4 h6 h401 hhead, hs, he, hk]
 
 /-- **Failure before the response head is complete ⇒ 5xx.**  Whatever the backend has sent so far,
     as long as its response head is not complete (nothing relayed yet), every way the backend
     stream can end — EOF, reset, socket error, hang-up, for FastCGI also EOF without
-    END_REQUEST — makes lighttpd answer with its own complete `500` response (error document,
-    keep-alive as negotiated): HTTP/1.0 and HTTP/1.1 clients. -/
+    END_REQUEST — makes lighttpd answer with its own complete `500` response (`OwnError`: error
+    document with its exact Content-Length, keep-alive as negotiated): HTTP/1.0 and HTTP/1.1. -/
 theorem c10_failure_before_head_is_5xx (cfg : Cfg) (st : St) (e : End)
     (hv : cfg.ver ≤ 1) (hc : st.cstate = .handle) (ho : st.open_ = true) (hs : st.started = false)
     (hh : st.handler = true) (hst : st.status = 0) (he : e ≠ .none) (hfe : st.fcgi.ended = false) :
+    OwnError cfg st (onEnd cfg st e) 500 := by
+  rw [onEnd_active cfg st e (Or.inl hc) ho he (by simp [lostHandler, hh]),
+      gwRecvEnd_pre cfg st e hc hs hh hst he hfe]
+  exact ownError_conStep cfg st _ 500 hv hc rfl rfl rfl (Or.inl rfl) rfl rfl
+
+/-- **HTTP/2: failure before the response head is complete ⇒ 5xx on the stream** — the twin of
+    `c10_failure_before_head_is_5xx`: HEADERS with status 500, the error page as DATA, END_STREAM
+    (`st.cerr = false`: every reachable state in the handle state, `Inv.cerrSent`). -/
+theorem c10_h2_failure_before_head_is_5xx (cfg : Cfg) (st : St) (e : End)
+    (hv : cfg.ver ≥ 2) (hc : st.cstate = .handle) (ho : st.open_ = true) (hs : st.started = false)
+    (hh : st.handler = true) (hst : st.status = 0) (he : e ≠ .none) (hfe : st.fcgi.ended = false)
+    (hce : st.cerr = false) :
     (onEnd cfg st e).status = 500 ∧ (onEnd cfg st e).cstate = .done ∧
-    (onEnd cfg st e).keepAlive = st.keepAlive ∧
-    ∃ fields, (onEnd cfg st e).evs = pushW st.evs
-      (h1StatusLine cfg 500 ++ fields ++ crlf ++ crlf ++ (if cfg.head then [] else errorPage 500)) := by
+    ∃ fields, (onEnd cfg st e).evs =
+      pushW (st.evs ++ [.hdrs 500 fields]) (if cfg.head then [] else errorPage 500) ++ [.endStream] := by
   rw [onEnd_active cfg st e (Or.inl hc) ho he (by simp [lostHandler, hh]),
       gwRecvEnd_pre cfg st e hc hs hh hst he hfe]
   generalize hst1 : ({ st with open_ := false, status := 500, handler := false } : St) = st1
@@ -369,25 +408,62 @@ theorem c10_failure_before_head_is_5xx (cfg : Cfg) (st : St) (e : End)
   have s2 : st1.handler = false := by rw [← hst1]
   have s3 : st1.cstate = .handle := by rw [← hst1]; exact hc
   have s4 : st1.open_ = false := by rw [← hst1]
-  have s5 : st1.keepAlive = st.keepAlive := by rw [← hst1]
   have s6 : st1.evs = st.evs := by rw [← hst1]
-  obtain ⟨w1, w2, w3, w4, w5, w6, w7⟩ := writePrepare_errdoc cfg st1 s2 (by omega) (by omega)
+  have s7 : st1.cerr = false := by rw [← hst1]; exact hce
+  obtain ⟨w1, _, w3, w4, _, _, w7⟩ := writePrepare_errdoc cfg st1 s2 (by omega) (by omega)
+  have hdc := writePrepare_errdoc_dc cfg st1 s2 (by omega) (by omega)
+  have hce2 : (writePrepare cfg st1).cerr = false := by rw [(wprel_writePrepare cfg st1).2.2.2.1, s7]
   have hstart : conStep cfg st1 = startResponse cfg st1 := by
     unfold conStep
     simp [s3, handlerStarts, subrequestWaits, s4]
   rw [hstart]
-  obtain ⟨r1, r2, r3, r4⟩ := startResponse_h1_finished cfg st1 hv (by omega) w7
-  refine ⟨by rw [r2, w1, s1], r1, by rw [r3, w2, s5], ⟨h1FieldLines (h1HeaderSet cfg (writePrepare cfg st1)), ?_⟩⟩
-  rw [r4, w1, w3, w4, s1, s6]
+  unfold startResponse
+  have hs0 : ¬ st1.status = 0 := by omega
+  simp only [hs0, if_false, hv, if_true]
+  unfold h2Progress
+  simp [hce2, w7, flush, endStreamEv, hdc, w1, w3, w4, s1, s6]
+  exact ⟨_, rfl⟩
 
+/-- **Backend failure after the backend's head was parsed but before the client-side head was
+    written ⇒ 502** (HTTP/1.x; stream-response-body = 0, or the failure arrives together with the
+    head).  Whatever part of the body was buffered is discarded, the backend's fields are
+    dropped, and the client gets lighttpd's own complete `502` error response — never the
+    partial body under a computed Content-Length.  (Not for a response without body, `bodiless`:
+    that one is complete with its head, `c10_bodiless_failure_is_clean_end`.) -/
+theorem c10_failure_before_client_head_is_502 (cfg : Cfg) (st : St) (e : End)
+    (hv : cfg.ver ≤ 1) (hc : st.cstate = .handle) (ho : st.open_ = true) (hs : st.started = true)
+    (hh : st.handler = true) (hsent : st.hdrSent = false) (hbl : bodiless cfg st = false) (he : FailEnd cfg st e) :
+    OwnError cfg st (onEnd cfg st e) 502 := by
+  rw [onEnd_active cfg st e (Or.inl hc) ho he.ne_none (by simp [lostHandler, hh]),
+      gwRecvEnd_fail cfg st e hs he, gwBackendError_unsent cfg st hs hsent hbl]
+  obtain ⟨b1, b2, b3, b4, b5, _⟩ := backendIncomplete_proj st
+  exact ownError_conStep cfg st _ 502 hv (by simp [b3, hc]) rfl b2 b1 (Or.inr rfl) b4 b5
 
-/-- **Backend failure after the response head was sent ⇒ the message is visibly aborted**
-    (HTTP/1.x).  In the write state (response head already on the wire, body not finished) a
-    reset / socket error of the backend connection — for FastCGI also EOF or hang-up before
-    END_REQUEST — never completes the message: nothing is appended to what was queued (in
-    particular no last-chunk), keep-alive is cleared and the response ends, i.e. the connection
-    is closed after an incomplete message.  Holds for every backend kind, every body framing and
-    every history that led to the state. -/
+/-- **A body cut short by backend EOF / hang-up before the client-side head was written ⇒ 502**
+    (HTTP/1.x): fewer bytes than the announced Content-Length (`scratch > 0`) or a chunked body
+    whose decoder is not done (`bodyTruncated`) when the backend closes. -/
+theorem c10_truncated_before_client_head_is_502 (cfg : Cfg) (st : St) (e : End)
+    (hv : cfg.ver ≤ 1) (hbe : cfg.be ≠ .fcgi) (hc : st.cstate = .handle) (ho : st.open_ = true)
+    (hs : st.started = true) (hh : st.handler = true) (hf : st.finished = false)
+    (hsent : st.hdrSent = false) (ht : bodyTruncated cfg st = true) (he : e = .eof ∨ e = .hup) :
+    OwnError cfg st (onEnd cfg st e) 502 := by
+  have hne : e ≠ .none := by rcases he with h | h <;> simp [h]
+  rw [onEnd_active cfg st e (Or.inl hc) ho hne (by simp [lostHandler, hh]),
+      gwRecvEnd_eofHup cfg st e hbe hs he, gwClose_handler cfg st hh,
+      backendDone_truncated_unsent cfg { st with open_ := false } hc hs hf hsent ht]
+  obtain ⟨b1, b2, b3, b4, b5, _⟩ := backendIncomplete_proj { st with open_ := false }
+  exact ownError_conStep cfg st _ 502 hv (by rw [b3]; exact hc) (by simp [backendIncomplete, bodyClear]) b2 b1
+    (Or.inr rfl) b4 b5
+
+/-- **Backend failure after the response head was sent ⇒ lighttpd aborts the message** (HTTP/1.x).
+    In the write state (response head already on the wire, body not finished) a reset / socket
+    error of the backend connection — for FastCGI also EOF or hang-up before END_REQUEST —
+    never completes the message: nothing is appended to what was queued (in particular no
+    last-chunk), keep-alive is cleared and the response ends, i.e. the connection is closed.
+    Holds for every backend kind, every body framing and every history that led to the state.
+    What the CLIENT can tell from it depends on the framing: a Content-Length or chunked
+    (HTTP/1.1) message is left short of its announced end; a close-delimited message to an
+    HTTP/1.0 client is NOT (`c10_http10_abort_invisible_witness`). -/
 theorem c10_failure_after_head_aborts (cfg : Cfg) (st : St) (e : End)
     (hv : cfg.ver ≤ 1) (hc : st.cstate = .write) (ho : st.open_ = true) (hs : st.started = true)
     (hsent : st.hdrSent = true) (hbl : bodiless cfg st = false) (he : FailEnd cfg st e) :
@@ -398,86 +474,30 @@ theorem c10_failure_after_head_aborts (cfg : Cfg) (st : St) (e : End)
       gwRecvEnd_fail cfg st e hs he, gwBackendError_sent cfg st hs hsent hbl]
   simp [conStep, hc, hv2, h1Progress, flush]
 
-/-- **Backend failure after the backend's head was parsed but before the client-side head was
-    written ⇒ 502** (HTTP/1.x; stream-response-body = 0, or the failure arrives together with the
-    head).  Whatever part of the body was buffered is discarded, the backend's fields are
-    dropped, and the client gets lighttpd's own complete `502` error response — never the
-    partial body under a computed Content-Length. -/
-theorem c10_failure_before_client_head_is_502 (cfg : Cfg) (st : St) (e : End)
-    (hv : cfg.ver ≤ 1) (hc : st.cstate = .handle) (ho : st.open_ = true) (hs : st.started = true)
-    (hh : st.handler = true) (hsent : st.hdrSent = false) (hbl : bodiless cfg st = false) (he : FailEnd cfg st e) :
-    (onEnd cfg st e).status = 502 ∧ (onEnd cfg st e).cstate = .done ∧
-    (onEnd cfg st e).keepAlive = st.keepAlive ∧
-    ∃ fields, (onEnd cfg st e).evs = pushW st.evs
-      (h1StatusLine cfg 502 ++ fields ++ crlf ++ crlf ++ (if cfg.head then [] else errorPage 502)) := by
-  rw [onEnd_active cfg st e (Or.inl hc) ho he.ne_none (by simp [lostHandler, hh]),
-      gwRecvEnd_fail cfg st e hs he, gwBackendError_unsent cfg st hs hsent hbl]
-  obtain ⟨b1, b2, b3, b4, b5, _⟩ := backendIncomplete_proj st
-  generalize hst1 : ({ (backendIncomplete st) with open_ := false } : St) = st1
-  have s1 : st1.status = 502 := by rw [← hst1]; exact b1
-  have s2 : st1.handler = false := by rw [← hst1]; exact b2
-  have s3 : st1.cstate = .handle := by rw [← hst1]; simp [b3, hc]
-  have s4 : st1.open_ = false := by rw [← hst1]
-  have s5 : st1.keepAlive = st.keepAlive := by rw [← hst1]; exact b4
-  have s6 : st1.evs = st.evs := by rw [← hst1]; exact b5
-  obtain ⟨c1, c2, c3, ⟨f, c4⟩⟩ := conStep_errdoc cfg st1 hv s3 s4 s2 (by omega) (by omega)
-  refine ⟨by rw [c1, s1], c2, by rw [c3, s5], ⟨f, ?_⟩⟩
-  rw [c4, s1, s6]
-
-/-- **A body cut short by backend EOF before the client-side head was written ⇒ 502**
-    (HTTP/1.x): fewer bytes than the announced Content-Length (`scratch > 0`) or a chunked body
-    whose decoder is not done (`bodyTruncated`) when the backend closes. -/
-theorem c10_truncated_before_client_head_is_502 (cfg : Cfg) (st : St)
-    (hv : cfg.ver ≤ 1) (hbe : cfg.be ≠ .fcgi) (hc : st.cstate = .handle) (ho : st.open_ = true)
-    (hs : st.started = true) (hh : st.handler = true) (hf : st.finished = false)
-    (hsent : st.hdrSent = false) (ht : bodyTruncated cfg st = true) :
-    (onEnd cfg st .eof).status = 502 ∧ (onEnd cfg st .eof).cstate = .done ∧
-    (onEnd cfg st .eof).keepAlive = st.keepAlive ∧
-    ∃ fields, (onEnd cfg st .eof).evs = pushW st.evs
-      (h1StatusLine cfg 502 ++ fields ++ crlf ++ crlf ++ (if cfg.head then [] else errorPage 502)) := by
-  rw [onEnd_active cfg st .eof (Or.inl hc) ho (by simp) (by simp [lostHandler, hh])]
-  have hg : gwRecvEnd cfg st .eof = { (backendIncomplete st) with open_ := false } := by
-    have h0 : gwRecvEnd cfg st .eof = gwClose cfg st := by simp [gwRecvEnd, hbe]
-    rw [h0, gwClose_handler cfg st hh,
-        backendDone_truncated_unsent cfg { st with open_ := false } hc hs hf hsent ht]
-    simp [backendIncomplete, bodyClear]
-  rw [hg]
-  obtain ⟨b1, b2, b3, b4, b5, _⟩ := backendIncomplete_proj st
-  generalize hst1 : ({ (backendIncomplete st) with open_ := false } : St) = st1
-  have s1 : st1.status = 502 := by rw [← hst1]; exact b1
-  have s2 : st1.handler = false := by rw [← hst1]; exact b2
-  have s3 : st1.cstate = .handle := by rw [← hst1]; simp [b3, hc]
-  have s4 : st1.open_ = false := by rw [← hst1]
-  have s5 : st1.keepAlive = st.keepAlive := by rw [← hst1]; exact b4
-  have s6 : st1.evs = st.evs := by rw [← hst1]; exact b5
-  obtain ⟨c1, c2, c3, ⟨f, c4⟩⟩ := conStep_errdoc cfg st1 hv s3 s4 s2 (by omega) (by omega)
-  refine ⟨by rw [c1, s1], c2, by rw [c3, s5], ⟨f, ?_⟩⟩
-  rw [c4, s1, s6]
-
-/-- **A body cut short by backend EOF after the client-side head was written closes the
+/-- **A body cut short by backend EOF / hang-up after the client-side head was written closes the
     connection** (HTTP/1.x): a Content-Length body with fewer bytes than announced, or a chunked
     backend body whose decoder is not done, is never terminated towards the client — no
-    last-chunk, nothing appended, keep-alive cleared: the client sees an incomplete message
-    followed by connection close.  (`hpt`: lighttpd sends chunked on its own only when no
-    Content-Length is known, i.e. a truncated body that is sent chunked is a chunked backend body.) -/
-theorem c10_truncated_after_head_closes (cfg : Cfg) (st : St)
+    last-chunk, nothing appended, keep-alive cleared.  (`hpt`: lighttpd sends chunked on its own
+    only when no Content-Length is known, i.e. a truncated body that is sent chunked is a chunked
+    backend body; an invariant of the relay that is validated by the correspondence, not proved.) -/
+theorem c10_truncated_after_head_closes (cfg : Cfg) (st : St) (e : End)
     (hv : cfg.ver ≤ 1) (hbe : cfg.be ≠ .fcgi) (hc : st.cstate = .write) (ho : st.open_ = true)
-    (hh : st.handler = true) (hf : st.finished = false)
+    (hs : st.started = true) (hh : st.handler = true) (hf : st.finished = false)
     (hsent : st.hdrSent = true) (ht : bodyTruncated cfg st = true)
-    (hpt : st.sendChunked = true → st.dc.isSome = true) :
-    (onEnd cfg st .eof).keepAlive = false ∧ (onEnd cfg st .eof).cstate = .done ∧
-    (onEnd cfg st .eof).evs = pushW st.evs st.wq := by
+    (hpt : st.sendChunked = true → st.dc.isSome = true) (he : e = .eof ∨ e = .hup) :
+    (onEnd cfg st e).keepAlive = false ∧ (onEnd cfg st e).cstate = .done ∧
+    (onEnd cfg st e).evs = pushW st.evs st.wq := by
   have hv2 : ¬ (cfg.ver ≥ 2) := by omega
-  rw [onEnd_active cfg st .eof (Or.inr hc) ho (by simp) (by simp [lostHandler, hc])]
-  have h0 : gwRecvEnd cfg st .eof = gwClose cfg st := by simp [gwRecvEnd, hbe]
-  rw [h0, gwClose_handler cfg st hh,
+  have hne : e ≠ .none := by rcases he with h | h <;> simp [h]
+  rw [onEnd_active cfg st e (Or.inr hc) ho hne (by simp [lostHandler, hc]),
+      gwRecvEnd_eofHup cfg st e hbe hs he, gwClose_handler cfg st hh,
       backendDone_truncated_sent cfg { st with open_ := false } hc hf hsent ht]
   generalize hst2 : ({ st with open_ := false } : St) = st2
   have hpt2 : (backendAbort cfg st2).sendChunked = true → (backendAbort cfg st2).dc.isSome = true := by
     rw [← hst2]; simpa [backendAbort] using hpt
   obtain ⟨k1, k2, k3, _, _, k6⟩ := chunkClose_noappend (backendAbort cfg st2) hpt2
-  have hka : (chunkClose (backendAbort cfg st2)).keepAlive = false := by
-    cases hk : (chunkClose (backendAbort cfg st2)).keepAlive
+  have hka : (BeResp.chunkClose (backendAbort cfg st2)).keepAlive = false := by
+    cases hk : (BeResp.chunkClose (backendAbort cfg st2)).keepAlive
     · rfl
     · have := k6 hk; simp [backendAbort] at this
   have e1 : st2.cstate = .write := by rw [← hst2]; exact hc
@@ -485,26 +505,27 @@ theorem c10_truncated_after_head_closes (cfg : Cfg) (st : St)
   have e3 : st2.evs = st.evs := by rw [← hst2]
   by_cases h1 : cfg.ver = 1
   · simp only [h1, if_true]
-    have c1 : (chunkClose (backendAbort cfg st2)).cstate = .write := by rw [k3]; simp [backendAbort, e1]
-    have c2 : (chunkClose (backendAbort cfg st2)).wq = st.wq := by rw [k1]; simp [backendAbort, e2]
-    have c3 : (chunkClose (backendAbort cfg st2)).evs = st.evs := by rw [k2]; simp [backendAbort, e3]
+    have c1 : (BeResp.chunkClose (backendAbort cfg st2)).cstate = .write := by rw [k3]; simp [backendAbort, e1]
+    have c2 : (BeResp.chunkClose (backendAbort cfg st2)).wq = st.wq := by rw [k1]; simp [backendAbort, e2]
+    have c3 : (BeResp.chunkClose (backendAbort cfg st2)).evs = st.evs := by rw [k2]; simp [backendAbort, e3]
     simp [conStep, c1, h1Progress, flush, c2, c3, hka, h1]
   · simp [h1, conStep, e1, e2, e3, backendAbort, hv2, h1Progress, flush]
 
 /-- **Clean EOF completes an EOF-delimited body** (HTTP/1.1, lighttpd chunk-encodes): the
-    last-chunk is written exactly then, keep-alive stays as it was. -/
-theorem c10_clean_eof_terminates_chunked (cfg : Cfg) (st : St)
+    last-chunk is written then, keep-alive stays as it was. -/
+theorem c10_clean_eof_terminates_chunked (cfg : Cfg) (st : St) (e : End)
     (hbe : cfg.be ≠ .fcgi) (hv : cfg.ver = 1) (hc : st.cstate = .write) (ho : st.open_ = true)
-    (hh : st.handler = true) (hf : st.finished = false)
-    (hsc : st.sendChunked = true) (hd : st.dc = none) (hsp : st.scratch < 0) :
-    (onEnd cfg st .eof).keepAlive = st.keepAlive ∧ (onEnd cfg st .eof).cstate = .done ∧
-    (onEnd cfg st .eof).evs = pushW st.evs (st.wq ++ ofString "0\r\n\r\n") := by
+    (hs : st.started = true) (hh : st.handler = true) (hf : st.finished = false)
+    (hsc : st.sendChunked = true) (hd : st.dc = none) (hsp : st.scratch < 0) (he : e = .eof ∨ e = .hup) :
+    (onEnd cfg st e).keepAlive = st.keepAlive ∧ (onEnd cfg st e).cstate = .done ∧
+    (onEnd cfg st e).evs = pushW st.evs (st.wq ++ ofString "0\r\n\r\n") := by
   have hv2 : ¬ (cfg.ver ≥ 2) := by omega
   have hsp2 : ¬ (st.scratch > 0) := by omega
-  rw [onEnd_active cfg st .eof (Or.inr hc) ho (by simp) (by simp [lostHandler, hc])]
-  have hg : gwRecvEnd cfg st .eof =
+  have hne : e ≠ .none := by rcases he with h | h <;> simp [h]
+  rw [onEnd_active cfg st e (Or.inr hc) ho hne (by simp [lostHandler, hc]), gwRecvEnd_eofHup cfg st e hbe hs he]
+  have hg : gwClose cfg st =
       { st with open_ := false, finished := true, wq := st.wq ++ ofString "0\r\n\r\n" } := by
-    simp [gwRecvEnd, hbe, gwClose, hh, backendDone, hc, hf, chunkClose, hsc, hd, hv, hsp2, bodyTruncated]
+    simp [gwClose, hh, backendDone, hc, hf, BeResp.chunkClose, hsc, hd, hv, hsp2, bodyTruncated]
   rw [hg]
   simp [conStep, hc, hv2, h1Progress, flush]
 
@@ -521,19 +542,28 @@ theorem c10_h2_failure_resets_stream (cfg : Cfg) (st : St) (e : End)
       gwRecvEnd_fail cfg st e hs he, gwBackendError_sent cfg st hs hsent hbl]
   simp [conStep, hc, hv, h2Progress]
 
-/-- ... and so does a body cut short by backend EOF (short of Content-Length / inside a chunked body). -/
-theorem c10_h2_truncated_resets_stream (cfg : Cfg) (st : St)
+/-- ... and so does a body cut short by backend EOF / hang-up (short of Content-Length / inside a chunked body). -/
+theorem c10_h2_truncated_resets_stream (cfg : Cfg) (st : St) (e : End)
     (hv : cfg.ver ≥ 2) (hbe : cfg.be ≠ .fcgi) (hc : st.cstate = .write) (ho : st.open_ = true)
-    (hh : st.handler = true) (hf : st.finished = false)
-    (hsent : st.hdrSent = true) (ht : bodyTruncated cfg st = true) :
-    (onEnd cfg st .eof).cstate = .done ∧ (onEnd cfg st .eof).evs = st.evs ++ [.rst] := by
+    (hs : st.started = true) (hh : st.handler = true) (hf : st.finished = false)
+    (hsent : st.hdrSent = true) (ht : bodyTruncated cfg st = true) (he : e = .eof ∨ e = .hup) :
+    (onEnd cfg st e).cstate = .done ∧ (onEnd cfg st e).evs = st.evs ++ [.rst] := by
   have hv1 : ¬ (cfg.ver = 1) := by omega
-  rw [onEnd_active cfg st .eof (Or.inr hc) ho (by simp) (by simp [lostHandler, hc])]
-  have h0 : gwRecvEnd cfg st .eof = gwClose cfg st := by simp [gwRecvEnd, hbe]
-  rw [h0, gwClose_handler cfg st hh,
+  have hne : e ≠ .none := by rcases he with h | h <;> simp [h]
+  rw [onEnd_active cfg st e (Or.inr hc) ho hne (by simp [lostHandler, hc]),
+      gwRecvEnd_eofHup cfg st e hbe hs he, gwClose_handler cfg st hh,
       backendDone_truncated_sent cfg { st with open_ := false } hc hf hsent ht]
   simp [hv1, conStep, hc, hv, h2Progress, backendAbort]
 
+/-- **A response without body is complete with its head** (answer to HEAD, 304): whatever way the
+    backend stream ends afterwards — reset, socket error, FastCGI end of stream without
+    END_REQUEST — is handled exactly like an orderly close of the backend connection; no 502, no
+    abort, whatever Content-Length or Transfer-Encoding the head carries. -/
+theorem c10_bodiless_failure_is_clean_end (cfg : Cfg) (st : St) (e : End)
+    (hs : st.started = true) (hb : bodiless cfg st = true) (he : FailEnd cfg st e) :
+    gwRecvEnd cfg st e = gwClose cfg st ∧ bodyTruncated cfg st = false := by
+  refine ⟨?_, by simp [bodyTruncated, hb]⟩
+  rw [gwRecvEnd_fail cfg st e hs he, backendError_bodiless cfg st hs hb]
 
 /-- **A kept-alive HTTP/1.x response always announces its length** (failure isolation): after
     http_response_write_prepare(), for a response that may carry a body (not HEAD, not 204/304),
@@ -579,23 +609,6 @@ theorem c10_relay_exact_partial (cfg : Cfg) (d1 d2 d3 : UInt8) (reason : Bytes)
   relay_cl_exact cfg d1 d2 d3 reason fs clv body e hbe hv hh hd hc hr hcode hfs hnd hne hhead hplus htrim hclv hnum
     hbody hsize hcount
 
-/-- the field lines of the client-side head are the stored fields verbatim (`CRLF name ": " value`),
-    plus a Date line when the backend sent none -/
-theorem c10_field_lines_verbatim (hs : List (Bytes × Bytes))
-    (h : ∀ kv ∈ hs, kv.1 ≠ [] ∧ kv.2 ≠ [] ∧ omitHeader kv.1 = false) :
-    h1FieldLines hs = (hs.flatMap fun kv => crlf ++ kv.1 ++ [colon, sp] ++ kv.2) ++
-      (if hasHdr hs nDate then [] else dateLine) := by
-  unfold h1FieldLines
-  congr 1
-  induction hs with
-  | nil => rfl
-  | cons kv rest ih =>
-    have hk := h kv (by simp)
-    have e1 : kv.1.isEmpty = false := by cases hkv : kv.1 <;> simp_all
-    have e2 : kv.2.isEmpty = false := by cases hkv : kv.2 <;> simp_all
-    simp only [List.flatMap_cons, e1, e2, hk.2.2, Bool.or_self, Bool.false_eq_true, if_false]
-    rw [ih (fun x hx => h x (by simp [hx]))]
-
 /-! non-vacuity of `c10_relay_exact_partial`: a concrete instance of every hypothesis -/
 example : LineField (ofString "X-Foo") (ofString "bar baz") :=
   { toPlainField := ⟨by decide, by decide, by decide, by decide, by decide, by decide⟩, klf := by decide, vlf := by decide }
@@ -607,93 +620,95 @@ example : codeOf 50 48 48 = 200 := by decide
 
 /-! ## the planned top-level statements, assembled from the parts above -/
 
-/-- `c10_segmentation` of DESIGN §6: the three automata (chunked decoder, FastCGI reassembly, plain
-    body accounting) give the same result for one piece `a ++ b` as for `a` followed by `b`;
-    the response head is covered by `c10_head_segmentation`. -/
-theorem c10_segmentation (d : DcSt) (f : FrSt) (st : St) (a b : Bytes)
-    (hd : st.decodeChunked = false) (hsc : st.sendChunked = false) :
-    dcFeed (dcFeed d a) b = dcFeed d (a ++ b) ∧ frFeed (frFeed f a) b = frFeed f (a ++ b) ∧
-    (appendMem (appendMem st a).1 b).1 = (appendMem st (a ++ b)).1 :=
-  ⟨c10_dechunk_segmentation d a b, c10_fcgi_segmentation f a b, c10_body_segmentation_plain st a b hd hsc⟩
-
-/-- the client-side state machine and the "response head sent" flag agree (holds in every state
-    the relay reaches: the head is written exactly at the handle → write transition, which needs
-    the backend's head) -/
-def HeadConsistent (st : St) : Prop :=
-  (st.cstate = .handle ∧ st.hdrSent = false) ∨ (st.cstate = .write ∧ st.hdrSent = true ∧ st.started = true)
-
 /-- how the backend stream can break while a response is being relayed -/
 inductive Broken (cfg : Cfg) (st : St) : End → Prop
   /-- the backend goes away (any way) before its response head is complete -/
   | noHead (e : End) : st.started = false → st.status = 0 → st.fcgi.ended = false → e ≠ .none → Broken cfg st e
-  /-- connection reset / socket error / FastCGI end of stream without END_REQUEST, body not finished -/
+  /-- connection reset / socket error / FastCGI end of stream without END_REQUEST, while the body
+      of a response that has one is unfinished -/
   | failed (e : End) : st.started = true → bodiless cfg st = false → FailEnd cfg st e → Broken cfg st e
-  /-- backend EOF short of the announced Content-Length or inside a chunked body -/
-  | truncated : st.started = true → cfg.be ≠ .fcgi → bodyTruncated cfg st = true →
-      (st.sendChunked = true → st.dc.isSome = true) → Broken cfg st .eof
+  /-- backend EOF / hang-up short of the announced Content-Length or inside a chunked body -/
+  | truncated (e : End) : st.started = true → cfg.be ≠ .fcgi → bodyTruncated cfg st = true →
+      (st.sendChunked = true → st.dc.isSome = true) → (e = .eof ∨ e = .hup) → Broken cfg st e
 
-/-- `c10_broken_never_complete` of DESIGN §6 (HTTP/1.x): a backend response that is cut off — no
-    complete head, connection failure, FastCGI stream without END_REQUEST, EOF short of
-    Content-Length or inside a chunked body — is never presented as a complete successful
-    response, whatever was relayed before (any state `st` with an unfinished response): as long
-    as the client-side response head has not been written the client gets lighttpd's own complete
-    `500`/`502` error response; afterwards nothing more is written (no last-chunk, no further
-    body), keep-alive is cleared and the response ends, i.e. the connection is closed after a
-    visibly incomplete message.  HTTP/2: `c10_h2_failure_resets_stream`,
-    `c10_h2_truncated_resets_stream`. -/
-theorem c10_broken_never_complete (cfg : Cfg) (st : St) (e : End) (hv : cfg.ver ≤ 1)
-    (ho : st.open_ = true) (hh : st.handler = true) (hf : st.finished = false)
-    (hcons : HeadConsistent st) (hb : Broken cfg st e) :
-    (((onEnd cfg st e).status = 500 ∨ (onEnd cfg st e).status = 502) ∧ (onEnd cfg st e).cstate = .done ∧
-      ∃ fields, (onEnd cfg st e).evs = pushW st.evs
-        (h1StatusLine cfg (onEnd cfg st e).status ++ fields ++ crlf ++ crlf ++
-          (if cfg.head then [] else errorPage (onEnd cfg st e).status))) ∨
-    ((onEnd cfg st e).keepAlive = false ∧ (onEnd cfg st e).cstate = .done ∧
-     (onEnd cfg st e).evs = pushW st.evs st.wq) := by
+/-- `c10_broken_never_complete` of DESIGN §6 for HTTP/1.x, over RUNS of the relay: after any
+    sequence of backend reads (`segs`, starting from the initial state — the reachability
+    invariant `Inv` of Proofs/BackendResp.lean supplies that the client-side state machine, the
+    "head sent" flag, `started` and `finished` are consistent), while the response is unfinished,
+    a backend stream that breaks — no complete head, connection failure, FastCGI stream without
+    END_REQUEST, EOF or hang-up short of Content-Length or inside a chunked body — is never
+    completed by lighttpd: as long as the client-side response head has not been written the
+    client gets lighttpd's own complete `500`/`502` error response (`OwnError`); afterwards nothing
+    more is written (no last-chunk, no further body), keep-alive is cleared and the response ends.
+    `hh`: the handler is still attached (false only after an unusable Status field inside a 1xx
+    block, the behaviour reported as-is).
+    `_partial`, MISSING: (1) that the abort is VISIBLE to the client — true by framing for
+    Content-Length and HTTP/1.1 chunked messages (not proved: needs the accounting between
+    `scratch` and the bytes written), FALSE for a close-delimited message to an HTTP/1.0 client
+    (`c10_http10_abort_invisible_witness`, known finding); (2) failures that lighttpd detects
+    while reading (`onData`: chunked framing error, FastCGI END_REQUEST before the announced end)
+    take the same `gwBackendError`/`gwClose` paths but are not restated here; (3) `hpt` inside
+    `Broken.truncated`; HTTP/2: `c10_h2_*`. -/
+theorem c10_broken_never_complete_partial (cfg : Cfg) (segs : List Bytes) (e : End) (hv : cfg.ver ≤ 1)
+    (ho : (segs.foldl (onData cfg) {}).open_ = true)
+    (hact : (segs.foldl (onData cfg) {}).cstate = .handle ∨ (segs.foldl (onData cfg) {}).cstate = .write)
+    (hh : (segs.foldl (onData cfg) {}).handler = true)
+    (hb : Broken cfg (segs.foldl (onData cfg) {}) e) :
+    (OwnError cfg (segs.foldl (onData cfg) {}) (relay cfg segs e) 500 ∨
+     OwnError cfg (segs.foldl (onData cfg) {}) (relay cfg segs e) 502) ∨
+    ((relay cfg segs e).keepAlive = false ∧ (relay cfg segs e).cstate = .done ∧
+     (relay cfg segs e).evs = pushW (segs.foldl (onData cfg) {}).evs (segs.foldl (onData cfg) {}).wq) := by
+  have hi : Inv (segs.foldl (onData cfg) {}) := inv_reach cfg segs {} inv_init
+  unfold relay
+  generalize segs.foldl (onData cfg) {} = st at *
+  have hf : st.finished = false := hi.unfinished ho hact
   cases hb with
-  | noHead e hs h0 hfe hne =>
-    rcases hcons with ⟨hc, _⟩ | ⟨_, _, hs'⟩
-    · left
-      obtain ⟨a, b, _, ⟨f, d⟩⟩ := c10_failure_before_head_is_5xx cfg st e hv hc ho hs hh h0 hne hfe
-      exact ⟨Or.inl a, b, ⟨f, by rw [a]; exact d⟩⟩
-    · rw [hs] at hs'; cases hs'
-  | failed e hs hbl hfail =>
-    rcases hcons with ⟨hc, hsent⟩ | ⟨hc, hsent, _⟩
-    · left
-      obtain ⟨a, b, _, ⟨f, d⟩⟩ := c10_failure_before_client_head_is_502 cfg st e hv hc ho hs hh hsent hbl hfail
-      exact ⟨Or.inr a, b, ⟨f, by rw [a]; exact d⟩⟩
+  | noHead hs h0 hfe hne =>
+    rcases hact with hc | hc
+    · exact Or.inl (Or.inl (c10_failure_before_head_is_5xx cfg st e hv hc ho hs hh h0 hne hfe))
+    · have := hi.wstarted hc ho; rw [hs] at this; cases this
+  | failed hs hbl hfail =>
+    rcases hact with hc | hc
+    · exact Or.inl (Or.inr (c10_failure_before_client_head_is_502 cfg st e hv hc ho hs hh (hi.handle hc) hbl hfail))
     · right
-      obtain ⟨a, b, _, d⟩ := c10_failure_after_head_aborts cfg st e hv hc ho hs hsent hbl hfail
+      obtain ⟨a, b, _, d⟩ := c10_failure_after_head_aborts cfg st e hv hc ho hs (hi.write hc) hbl hfail
       exact ⟨a, b, d⟩
-  | truncated hs hbe ht hpt =>
-    rcases hcons with ⟨hc, hsent⟩ | ⟨hc, hsent, _⟩
-    · left
-      obtain ⟨a, b, _, ⟨f, d⟩⟩ := c10_truncated_before_client_head_is_502 cfg st hv hbe hc ho hs hh hf hsent ht
-      exact ⟨Or.inr a, b, ⟨f, by rw [a]; exact d⟩⟩
-    · right
-      exact c10_truncated_after_head_closes cfg st hv hbe hc ho hh hf hsent ht hpt
+  | truncated hs hbe ht hpt he =>
+    rcases hact with hc | hc
+    · exact Or.inl (Or.inr (c10_truncated_before_client_head_is_502 cfg st e hv hbe hc ho hs hh hf (hi.handle hc) ht he))
+    · exact Or.inr (c10_truncated_after_head_closes cfg st e hv hbe hc ho hs hh hf (hi.write hc) ht hpt he)
 
-/-- `c10_failure_isolated` of DESIGN §6 for HTTP/1.x: a broken backend response never leaves the
-    client connection open in a state where the next request's response could be mistaken for
-    the rest of this one — once the head is on the wire the failed relay clears keep-alive (the
-    connection is closed after the aborted message), and whenever keep-alive does survive
-    write-prepare the message announces its own length.
-    MISSING: HTTP/2 multiplexing (other streams untouched) — the model has one stream (it gets
-    RST_STREAM: `c10_h2_failure_resets_stream`); other streams are observed end to end. -/
-theorem c10_failure_isolated_partial (cfg : Cfg) (st : St) (e : End) (hv : cfg.ver ≤ 1) (hh : cfg.head = false)
-    (hc : st.cstate = .write) (ho : st.open_ = true) (hhd : st.handler = true) (hf : st.finished = false)
-    (hsent : st.hdrSent = true) (hst : st.started = true) (hb : Broken cfg st e) :
-    (onEnd cfg st e).keepAlive = false ∧
-    ((writePrepare cfg st).keepAlive = true →
-      (writePrepare cfg st).status = 204 ∨ (writePrepare cfg st).status = 304 ∨
-      hasHdr (writePrepare cfg st).headers nContentLength = true ∨
-      hasHdr (writePrepare cfg st).headers nTransferEncoding = true ∨
-      hasHdr (writePrepare cfg st).headers nUpgrade = true) := by
-  refine ⟨?_, fun hk => c10_keepalive_requires_framing cfg st hv hh hk⟩
-  cases hb with
-  | noHead e hs _ _ _ => rw [hst] at hs; cases hs
-  | failed e hs hbl hfail => exact (c10_failure_after_head_aborts cfg st e hv hc ho hs hsent hbl hfail).1
-  | truncated hs hbe ht hpt => exact (c10_truncated_after_head_closes cfg st hv hbe hc ho hhd hf hsent ht hpt).1
+/-- "Visibly aborted" is FALSE for an HTTP/1.0 client with a streamed body that is delimited by
+    connection close: a backend reset after part of the body gives exactly the same bytes, and
+    the same orderly close, as a backend that finished (known finding; nothing short of a TCP
+    reset could tell the client, and the C that would is under `#if 0`). -/
+theorem c10_http10_abort_invisible_witness :
+    (relay { be := .proxy, ver := 0, stream := 1 } [ofString "HTTP/1.1 200 OK\r\n\r\nhel"] .rst).evs =
+      (relay { be := .proxy, ver := 0, stream := 1 } [ofString "HTTP/1.1 200 OK\r\n\r\nhel"] .eof).evs ∧
+    (relay { be := .proxy, ver := 0, stream := 1 } [ofString "HTTP/1.1 200 OK\r\n\r\nhel"] .rst).keepAlive = false ∧
+    (relay { be := .proxy, ver := 0, stream := 1 } [ofString "HTTP/1.1 200 OK\r\n\r\nhel"] .eof).keepAlive = false ∧
+    Broken { be := .proxy, ver := 0, stream := 1 }
+      (onData { be := .proxy, ver := 0, stream := 1 } {} (ofString "HTTP/1.1 200 OK\r\n\r\nhel")) .rst := by
+  refine ⟨by decide, by decide, by decide, .failed _ (by decide) (by decide) (Or.inl rfl)⟩
+
+/-- `c10_failure_isolated` of DESIGN §6 for HTTP/1.x, over runs: keep-alive survives a broken
+    backend response only together with lighttpd's own complete error response, whose
+    Content-Length is that of the error page (`OwnError`) — in every other case the connection is
+    closed, so no later response on the connection can be mistaken for the rest of this one.
+    `_partial`, MISSING: HTTP/2 multiplexing (other streams untouched) — the model has one stream
+    (it gets RST_STREAM: `c10_h2_failure_resets_stream`); other streams are observed end to end
+    (probe stream of `e2e-beresp`). -/
+theorem c10_failure_isolated_partial (cfg : Cfg) (segs : List Bytes) (e : End) (hv : cfg.ver ≤ 1)
+    (ho : (segs.foldl (onData cfg) {}).open_ = true)
+    (hact : (segs.foldl (onData cfg) {}).cstate = .handle ∨ (segs.foldl (onData cfg) {}).cstate = .write)
+    (hh : (segs.foldl (onData cfg) {}).handler = true)
+    (hb : Broken cfg (segs.foldl (onData cfg) {}) e)
+    (hk : (relay cfg segs e).keepAlive = true) :
+    OwnError cfg (segs.foldl (onData cfg) {}) (relay cfg segs e) 500 ∨
+    OwnError cfg (segs.foldl (onData cfg) {}) (relay cfg segs e) 502 := by
+  rcases c10_broken_never_complete_partial cfg segs e hv ho hact hh hb with h | ⟨a, _, _⟩
+  · exact h
+  · rw [a] at hk; cases hk
 
 /-! non-vacuity of the composite theorems: concrete reachable states / complete runs -/
 
@@ -723,20 +738,34 @@ example : let st := onData { be := .scgi, ver := 1, stream := 1 } {} (ofString "
     st.cstate = .write ∧ st.open_ = true ∧ st.started = true ∧ st.finished = false ∧ st.handler = true ∧
     st.sendChunked = true ∧ st.dc = none ∧ st.scratch < 0 := by decide
 /-- the state after the head and part of the body were buffered (stream-response-body = 0): the
-    client-side head is not written yet; `Broken` / `HeadConsistent` are inhabited -/
+    client-side head is not written yet; `Broken` is inhabited -/
 example : let st := onData { be := .proxy, ver := 1, stream := 0 } {}
                       (ofString "HTTP/1.1 200 OK\r\nTransfer-Encoding: chunked\r\n\r\n5\r\nhello\r\n")
     st.cstate = .handle ∧ st.open_ = true ∧ st.started = true ∧ st.finished = false ∧ st.handler = true ∧
     st.hdrSent = false ∧ bodyTruncated { be := .proxy, ver := 1, stream := 0 } st = true ∧ (st.sendChunked = true → st.dc.isSome = true) := by decide
 example : Broken { be := .proxy, ver := 1, stream := 0 }
     (onData { be := .proxy, ver := 1, stream := 0 } {}
-      (ofString "HTTP/1.1 200 OK\r\nTransfer-Encoding: chunked\r\n\r\n5\r\nhello\r\n")) .eof :=
-  .truncated (by decide) (by decide) (by decide) (by decide)
-example : HeadConsistent (onData { be := .proxy, ver := 1, stream := 0 } {}
-      (ofString "HTTP/1.1 200 OK\r\nTransfer-Encoding: chunked\r\n\r\n5\r\nhello\r\n")) := Or.inl (by decide)
-example : HeadConsistent (onData { be := .proxy, ver := 1, stream := 1 } {}
-      (ofString "HTTP/1.1 200 OK\r\nContent-Length: 5\r\n\r\nhel")) := Or.inr (by decide)
+      (ofString "HTTP/1.1 200 OK\r\nTransfer-Encoding: chunked\r\n\r\n5\r\nhello\r\n")) .hup :=
+  .truncated _ (by decide) (by decide) (by decide) (by decide) (Or.inr rfl)
+/-- the invariant at work: these two states are reachable, so `Inv` holds of them -/
+example : Inv (onData { be := .proxy, ver := 1, stream := 0 } {}
+      (ofString "HTTP/1.1 200 OK\r\nTransfer-Encoding: chunked\r\n\r\n5\r\nhello\r\n")) := inv_onData _ _ _ inv_init
+example : Inv (onData { be := .proxy, ver := 1, stream := 1 } {}
+      (ofString "HTTP/1.1 200 OK\r\nContent-Length: 5\r\n\r\nhel")) := inv_onData _ _ _ inv_init
 example : FailEnd { be := .fcgi, ver := 1 } {} .eof := Or.inr (Or.inr ⟨rfl, Or.inl rfl, rfl⟩)
+/-! the fields of lighttpd's own 502 (HTTP/1.1, keep-alive): Content-Type, the page's Content-Length, Date -/
+set_option maxRecDepth 100000 in
+example : errFields { be := .proxy, ver := 1 } 502 true =
+    ofString "\r\nContent-Type: text/html\r\nContent-Length: 162\r\nDate: Sun, 09 Sep 2001 01:46:40 GMT" := by decide
+/-! a complete answer to HEAD (or a 304) followed by a backend reset is relayed -/
+set_option maxRecDepth 100000 in
+example : (relay { be := .proxy, ver := 1, stream := 0, head := true }
+      [ofString "HTTP/1.1 200 OK\r\nContent-Length: 5\r\n\r\n"] .rst).status = 200 ∧
+    (relay { be := .scgi, ver := 1, stream := 0 } [ofString "Status: 304\r\nContent-Length: 5\r\n\r\n"] .rst).status = 304 ∧
+    bodiless { be := .proxy, ver := 1, head := true } {} = true := by
+  refine ⟨by decide, by decide, by decide⟩
+/-- the encoder's rendering of a size with an extension is an accepted size line -/
+example : encHex 26 ++ ofString ";x=y" ++ [cr, lf] = ofString "1a;x=y\r\n" := by decide
 /-! the runs the pinned code presented as complete `200`s are `502`s now -/
 set_option maxRecDepth 100000 in
 example : (relay { be := .proxy, ver := 1, stream := 0 }
